@@ -56,6 +56,19 @@ def run(ctx):
     if not ek:
         raise CannotDecide('std::io::ErrorKind discriminant table missing from facts')
     discr_name = {int(v[2]): v[0] for v in ek}
+    # the table may sit in the serde hook itself or in a private pure function it calls
+    def table_fn(hook):
+        if tab.find_switches(hook):
+            return hook
+        refs = {F.callee_fn(t).id: F.callee_fn(t) for _, t in hook.calls() if F.callee_fn(t) is not None}
+        for _, t in hook.calls():     # a function handed over by value: `.map(io_error_kind_from_u32)`
+            for a in t['args']:
+                if a.get('k') == 'const' and a.get('fn_id') in F.fns:
+                    refs[a['fn_id']] = F.fns[a['fn_id']]
+        cands = [c for c in refs.values() if tab.find_switches(c)]
+        return cands[0] if len(cands) == 1 else hook
+    w_hook, r_hook = w, r
+    w, r = table_fn(w_hook), table_fn(r_hook)
     ws = tab.find_switches(w)
     rs = tab.find_switches(r)
     if len(ws) != 1 or len(rs) != 1:
@@ -89,25 +102,37 @@ def run(ctx):
     R.ob('C15.kind', ('error-kind tables', 'defaults'), wdef is not None and wdef[0] == 'int' and wdef[1] == other_code and rdef is not None and rdef[0] == 'variant' and rdef[2] == 'Other',
          'unknown kinds are written as Other\'s code and unknown codes are read as Other', [w.loc(w.d), r.loc(r.d)])
     # the value serialised is the table result; the value switched on is the decoded integer
-    wser = [(bb, t) for bb, t in w.calls() if callee_is(t, 'Serialize::serialize')]
-    rde = [(bb, t) for bb, t in r.calls() if callee_is(t, 'Deserialize::deserialize')]
+    wser = [(bb, t) for bb, t in w_hook.calls() if callee_is(t, 'Serialize::serialize', 'Serializer::serialize_u8', 'Serializer::serialize_u16', 'Serializer::serialize_u32', 'Serializer::serialize_u64')]
+    rde = [(bb, t) for bb, t in r_hook.calls() if callee_is(t, 'Deserialize::deserialize')]
     ok = len(wser) == 1 and len(rde) == 1
-    wty = wser[0][1].get('self_ty') if wser else None
+    wty = None
+    if wser:
+        cn_ = strip_generics(wser[0][1]['callee']).split('::')[-1]
+        wty = cn_.split('_')[-1] if cn_.startswith('serialize_u') else wser[0][1].get('self_ty')
     rty = rde[0][1].get('self_ty') if rde else None
     R.ob('C15.kind', ('error-kind tables', 'same serde type'), ok and wty == rty and wty in ('u32', 'u8', 'u16', 'u64'),
          'the writer serialises and the reader deserialises the code at the same unsigned integer type', [w.loc(w.d), r.loc(r.d)], 'writer: %s, reader: %s' % (wty, rty))
     if ok:
         res_local = [a[3] for a in wt.values() if a]
-        rr = P.root(P.operand(w, wser[0][1]['args'][0], at=wser[0][0]))
-        okw = bool(rr) and all(x[0] == 'const' for x, _ in rr)
-        R.ob('C15.kind', ('error-kind writer', 'serialises the table result'), okw and len(set(res_local)) == 1, 'the integer written is the arm result (no arithmetic on it)', [w.loc(wser[0][1])])
+        # the value argument of the serialize call (Serialize::serialize(&v, s) / s.serialize_u32(v))
+        varg = wser[0][1]['args'][0] if callee_is(wser[0][1], 'Serialize::serialize') else wser[0][1]['args'][1]
+        rr = P.root(P.operand(w_hook, varg, at=wser[0][0]))
+        okw = bool(rr) and all(P.unbound(x)[0] == 'const' for x, _ in rr)
+        R.ob('C15.kind', ('error-kind writer', 'serialises the table result'), okw and len(set(res_local)) == 1, 'the integer written is the arm result (no arithmetic on it)', [w_hook.loc(wser[0][1])])
         sw = r.blocks[rs[0]]['term']['discr']
-        sr = P.root(P.operand(r, sw, at=rs[0]))
+        sr = P.root(P.operand(r, sw, at=rs[0])) if r.id == r_hook.id else P.root(P.operand(r, sw, at=rs[0]), through_params=True, callers={x.id for x in F.with_descendants(r_hook)})
         okr = bool(sr) and all(P.is_call(x, 'Deserialize::deserialize') for x, _ in sr)
+        if not okr and r.id != r_hook.id and sr and all(x == ('param', r.id, 1) for x, _ in sr):
+            # the table function is handed by value to `Result::map` on the decoded integer
+            for bb_, t_ in r_hook.calls():
+                if callee_is(t_, 'Result::map', 'Option::map') and any(a.get('k') == 'const' and a.get('fn_id') == r.id for a in t_['args'][1:]):
+                    rv_ = P.root(P.operand(r_hook, t_['args'][0], at=bb_))
+                    okr = bool(rv_) and all(P.is_call(x, 'Deserialize::deserialize') for x, _ in rv_)
         R.ob('C15.kind', ('error-kind reader', 'switches on the decoded integer'), okr, 'the integer matched is the decoded value (no arithmetic on it)', [r.loc(r.d)])
         d0 = w.blocks[ws[0]]['term']['discr']
         dr = P.operand(w, d0, at=ws[0])
-        okd = dr[0] == 'discr' and all(x == ('param', w.id, 1) for x, _ in P.root(dr[1]))
+        drr = P.root(dr[1]) if w.id == w_hook.id else P.root(dr[1], through_params=True, callers={w_hook.id})
+        okd = dr[0] == 'discr' and bool(drr) and all(x == ('param', w_hook.id, 1) for x, _ in drr)
         R.ob('C15.kind', ('error-kind writer', 'switches on its kind parameter'), okd, 'the writer matches on the kind it was given', [w.loc(w.d)])
 
     # ------------------------------------------------------------------ 128-bit ids
